@@ -193,12 +193,12 @@ ToRender(n, cf) ==
                [] nm = "blockquote" -> NE(Node("BlockQuote", sty, cs))
                [] nm = "ul" -> NE(Node("Ul", sty, cs))
                \* stray content directly in <ol> becomes an item of its own, in <dl> it stays where it is;
-               \* what is (shallow-)empty - white space, markers, line breaks - is dropped
-               [] nm = "ol" -> NE(Node("Ol", sty, LET keep == SelectSeq(cs, LAMBDA x : x.kind = "ListItem" \/ ~ShallowEmpty(x)) IN
+               \* what is (deep-)empty - white space, markers, line breaks, inline markup around them - is dropped
+               [] nm = "ol" -> NE(Node("Ol", sty, LET keep == SelectSeq(cs, LAMBDA x : x.kind = "ListItem" \/ ~DeepEmpty(x)) IN
                                                    [i \in 1..Len(keep) |-> IF keep[i].kind = "ListItem" THEN keep[i]
                                                                             ELSE Node("ListItem", NoSty, << keep[i] >>)])
                                   @@ [start |-> IF HasAttr(n, "start") THEN ParseInt(n.a.start.c, TRUE, 1) ELSE 1])
-               [] nm = "dl" -> NE(Node("Dl", sty, SelectSeq(cs, LAMBDA x : x.kind \in {"Dt", "Dd"} \/ ~ShallowEmpty(x))))
+               [] nm = "dl" -> NE(Node("Dl", sty, SelectSeq(cs, LAMBDA x : x.kind \in {"Dt", "Dd"} \/ ~DeepEmpty(x))))
                [] nm = "dt" -> << Node("Dt", sty, cs) >>
                [] nm = "dd" -> << Node("Dd", sty, cs) >>
                [] OTHER -> NE(Node("Container", sty, cs))
